@@ -95,6 +95,8 @@ def seeded(prop=None):
         if os.path.exists(mp) and os.path.exists(pp):
             with open(mp) as fh:
                 meta = json.load(fh)
+            if meta.get('undecided_by_design'):
+                continue      # documented miss: the breakage lies outside what the static family decides (DESIGN II.5)
             if prop is None or meta.get('property') == prop:
                 out.append({'id': 'seed:' + d, 'patch': pp, 'props': [meta.get('property')]})
     return out
